@@ -306,7 +306,31 @@ G8fund ==
     : at \in {0, 1}} : kind \in {x.kind, "Fp"}} : x \in SD}
 G8 == G8own \cup G8fund
 
-Stateless(T) == G1(T) \cup G2(T) \cup G3(T) \cup G4 \cup G5 \cup G7 \cup G8
+\* G9: ONE transaction with a channel funding output (good channel; also the single-defect channels), an
+\* unknown destination (before / after / around it; a foreign script, a wallet script given without its
+\* path, a script that is not allowlisted) AND inputs that are / are not known to be segwit; approver
+\* answering yes and no; the channel bound to the output or elsewhere (then nothing is funded)
+G9ins == {<<"p2wpkh">>, <<"p2wpkh", "p2tr">>, <<"p2pkh">>, <<"p2wpkh", "p2pkh">>, <<"p2pkh", "p2wpkh">>,
+          <<"p2wpkh", "p2sh">>, <<"p2wpkh", "p2wpkhU">>, <<"p2wpkh", "odd">>}
+G9shapes(u) ==   \* <<kinds, position of the funding output>>
+  { <<<<"F", u>>, 1>>, <<<<u, "F">>, 2>>, <<<<"F", "W", u>>, 1>>, <<<<u, "F", "W">>, 2>>, <<<<u, "F", u>>, 2>> }
+G9good ==
+  UNION {UNION {UNION {UNION {UNION {UNION {
+    LET ks   == sh[1]
+        outs == [k \in 1..Len(ks) |-> Out(ks[k], IF ks[k] = "F" THEN ChanVal ELSE DefVal(ks[k], k))]
+        lst  == u # "L"          \* "L" here is a script that is NOT in the allowlist
+    IN StepsOf("G9", Skel(PU, ic, outs, <<Chan(ChanVal, TRUE, Big0, "active", IF here THEN sh[2] ELSE 0)>>, lst, TRUE),
+               fees, ap)
+    : fees \in {{FS("one")}, {FS("rcap+1")}}} : ap \in BOOLEAN} : here \in BOOLEAN} : ic \in G9ins}
+    : sh \in G9shapes(u)} : u \in {"U", "Wn", "L"}}
+G9bad ==
+  UNION {UNION {UNION {
+    StepsOf("G9", Skel(PU, ic, <<Out("U", B(7)), Out(x.kind, Delta(ChanVal, x.d)), Out("W", B(200017))>>,
+                       <<Chan(ChanVal, x.ob, B(x.push), x.cm, 2)>>, TRUE, TRUE), {FS("one")}, ap)
+    : ap \in BOOLEAN} : ic \in {<<"p2pkh">>, <<"p2wpkh", "p2pkh">>}} : x \in SD}
+G9 == G9good \cup G9bad
+
+Stateless(T) == G1(T) \cup G2(T) \cup G3(T) \cup G4 \cup G5 \cup G7 \cup G8 \cup G9
 
 \* G6: sessions on one node under a small hourly fee velocity limit; `jump` moves the clock
 \* past the whole window before the step
@@ -349,6 +373,6 @@ GroupSteps(T, g) ==
     [] g = "G1c" -> G1part(T, {"Xk", "Xt", "Xs", "Xx", "Xn"})
     [] g = "G1d" -> G1part(T, {"U", "Ut", "Up", "F", "Fb", "Fp"})
     [] g = "G2"  -> G2(T)
-    [] g = "G345" -> G3(T) \cup G4 \cup G5 \cup G7 \cup G8
+    [] g = "G345" -> G3(T) \cup G4 \cup G5 \cup G7 \cup G8 \cup G9
 GroupSessions(T, g) == IF g = "G6" THEN Sessions(T) ELSE {<<s>> : s \in GroupSteps(T, g)}
 =============================================================================
